@@ -105,6 +105,7 @@ def build(tier, seed):
         for i in range(0, len(combos), 6):
             cases.append({'kind': 'lists', 'lists': [list(c) for c in combos[i:i + 6]]})
     cases.append({'kind': 'helpers'})
+    cases.append({'kind': 'overlaps'})
     return cases
 
 
@@ -266,9 +267,67 @@ def run_case(case):
                 check_list(pe, acc, lst, pi, full_perms=(pi == 0))
         obs, names = pool(pe, 0)
         acc.sample({'kind': 'list', 'observables': [names[i] for i in case['lists'][-1]], 'params': PARAMS, 'correlation': [False, True]})
+    elif case['kind'] == 'overlaps':
+        run_overlaps(pe, acc, case)
     else:
         run_helpers(pe, acc, case)
     return acc
+
+
+OVERLAP_BASES = {'contiguous': list(range(1, 31)), 'strided': list(range(2, 62, 2)), 'irregular': [1, 2, 4, 5, 7, 8, 11, 12, 14, 19, 20, 23, 25, 26, 30]}
+
+
+def run_overlaps(pe, acc, case):
+    """Two observables on one chain whose configuration lists have exactly m = 0, 1, 2, 3 configurations in common (at the end,
+    at the start, in the interior), every carrier pair, every analysis parameter choice, both list orders: the correlation is the
+    Pearson correlation of the fluctuations on the common configurations (+-1 for a single common configuration)."""
+    for bname, base in OVERLAP_BASES.items():
+        step = base[1] - base[0] if bname != 'irregular' else 1
+        for m in (0, 1, 2, 3):
+            partners = {
+                'after': base[len(base) - m:] + [base[-1] + step * (i + 1) for i in range(12)],
+                'before': [base[0] - step * (12 - i) for i in range(12)] + base[:m],
+                'interior': sorted(base[5:5 + m] + [base[-1] + 7 + 3 * i for i in range(12)]),
+            }
+            for pname, other in partners.items():
+                if other[0] < 1:
+                    other = [c + 40 for c in other]
+                    b2 = [c + 40 for c in base]
+                else:
+                    b2 = base
+                for ca, cb in itertools.product(('auto', 'list'), repeat=2):
+                    a = pe.Obs([alpha.data('ar1', b2, alpha.rng('c06ov', bname, m, pname, 'a'), 1.0, 0.1)], ['A|r1'], idl=[alpha.idl_carrier(b2, ca)])
+                    b = pe.Obs([alpha.data('white', other, alpha.rng('c06ov', bname, m, pname, 'b'), 0.5, 0.2)], ['A|r1'], idl=[alpha.idl_carrier(other, cb)])
+                    for pi in range(len(PARAMS)):
+                        sub = dict(case, base=bname, common=m, where=pname, carriers=[ca, cb], pi=pi)
+                        if 'base' in case and (case['base'], case['common'], case['where'], case['carriers'], case['pi']) != (bname, m, pname, [ca, cb], pi):
+                            continue
+                        with warnings.catch_warnings():
+                            warnings.simplefilter('ignore')
+                            a.gamma_method(**PARAMS[pi])
+                            b.gamma_method(**PARAMS[pi])
+                            try:
+                                corr = pe.covariance([a, b], correlation=True)
+                                cov = pe.covariance([a, b])
+                                covr = pe.covariance([b, a])
+                            except Exception as e:
+                                acc.fail('overlap:raised', sub, 'covariance of two observables with %d common configuration(s) (%s, %s) raised %s: %s' % (m, bname, pname, type(e).__name__, e))
+                                continue
+                        r = pearson(compare.to_ref(a), compare.to_ref(b))
+                        bad = None
+                        if len(set(b2) & set(other)) != m:
+                            raise engine.MachineryError('overlap alphabet: %s %s %d' % (bname, pname, m))
+                        if not abs(corr[0, 1] - r) <= 1e-12 or not abs(corr[1, 0] - r) <= 1e-12:
+                            bad = 'correlation %.15g, Pearson correlation on the %d common configuration(s) %.15g' % (corr[0, 1], m, r)
+                        elif not np.allclose(np.diag(corr), 1.0, atol=1e-12) or not np.allclose(np.diag(cov), [a.dvalue ** 2, b.dvalue ** 2], rtol=1e-12):
+                            bad = 'diagonal: %s / %s' % (np.diag(corr), np.diag(cov))
+                        elif not abs(cov[0, 1] - r * a.dvalue * b.dvalue) <= 1e-12 * a.dvalue * b.dvalue or not np.allclose(covr, cov[::-1, ::-1], rtol=1e-12, atol=1e-300):
+                            bad = 'covariance %.15g, expected %.15g; reversed list %s' % (cov[0, 1], r * a.dvalue * b.dvalue, covr.tolist())
+                        if bad:
+                            acc.fail('overlap:pearson', sub, '%s chain, partner %s with %d common configuration(s), carriers %s/%s, params %s: %s' % (bname, pname, m, ca, cb, PARAMS[pi], bad))
+                        else:
+                            acc.ok(('ov', bname, m, pname, ca, cb, pi), True, 'overlap-ok')
+    acc.sample({'kind': 'overlaps', 'bases': sorted(OVERLAP_BASES), 'common': [0, 1, 2, 3], 'where': ['after', 'before', 'interior']})
 
 
 def run_helpers(pe, acc, case):
